@@ -34,6 +34,8 @@ def check(ix, rep):
     rep.floor('unit cases of the begin<=end guard', ng, 4)
     nb = P.check_builder_exhaustive(ix, rep, grammars)   # "never silently accepts": an alternative without builder drops its operator
     rep.floor('grammar alternatives with a builder obligation', nb, 70)
+    ne = P.check_parse_every_path(ix, rep)
+    rep.floor('must-pass-through obligations of parse()', ne, 4)
     nt = P.check_termination(ix, rep, [ltl, stl])
     rep.floor('builder methods checked for termination shape', nt, 45)
     # building the monitor from a parsed specification: the unit strings the parser produces are consumed safely (shared with C08)
